@@ -10,6 +10,7 @@
 //     columns recomputed on UPDATE of a base column). INSERT IGNORE: valid rows are inserted exactly,
 //     violating rows are skipped or stored in an adjusted form that satisfies oracle 1, with a
 //     warning. ALTER TABLE ADD CHECK fails on violating data; NOT ENFORCED checks are ignored.
+//
 // Indexed (generated) columns are also read through their index and compared with the scan.
 package main
 
